@@ -66,7 +66,9 @@ ViewSecInfos(counts) == [l \in {ListOf(t) : t \in InfoTypes} |-> counts[CHOOSE t
 
 \* ---- EF.COM, EF.SOD ----------------------------------------------------------------------------------
 \* SOD: LDSSecurityObject v0 has no version info, v1 has it
-ViewSOD(version, nHashes) == [version |-> version, hashes |-> nHashes, versionInfo |-> version = 1]
+\* dataGroupHashValues is a SEQUENCE OF: the view lists the hashes in FILE order (ord = "ascending" by data group
+\* number as issuers usually write them, or "other"), never re-ordered
+ViewSOD(version, nHashes, ord) == [version |-> version, hashes |-> nHashes, versionInfo |-> version = 1, order |-> ord]
 
 \* ---- identity summary: precedence rules -----------------------------------------------------------------
 \* dg11 \in {"absent", "neither", "name", "dob", "both"}: which of name-of-holder / full date of birth DG11 carries
